@@ -183,7 +183,14 @@ def scenario(pk, params, inp):
                     "known": [bool(env.incomplete_game.is_value_known(C(S))) for S in range(2 ** n)],
                     "grand": env.incomplete_game.get_value(C(2 ** n - 1)),
                     "info_game_grand": info0["game"].get_value(C(2 ** n - 1)),
-                    "mask": [bool(x) for x in env.action_masks()]}
+                    "mask": [bool(x) for x in env.action_masks()], "done": bool(env.done)}
+    # reference for "done right after reset": a fresh game knowing only the initial coalitions of the NEW hidden game
+    hidden_r = _draw(inp, counter["k"], n)
+    fr = pk.game.IncompleteCooperativeGame(n, pk.bounds.BOUNDS[params["computer"]])
+    kr = sorted(set(F.minimal(n)) | set(params["init"]))
+    fr.set_known_values([hidden_r[S] for S in kr], [C(S) for S in kr])
+    fr.compute_bounds()
+    out["reset"]["fresh_widths_all_zero"] = bool(_all_zero(pk, fr, n))
     if n > 3 and not params.get("episode2"):
         return out
     # second episode on the SAME environment object: rewards must come from the NEW hidden game
@@ -285,6 +292,12 @@ def claims(params, inp, out, lg):
     cl.append(("reset-values-from-new-game", lg.And(lg.eq(r["grand"], v3[2 ** n - 1]), lg.eq(r["info_game_grand"], v3[2 ** n - 1]))))
     cl.append(("reset-observation-zero", lg.And([lg.eq(x, zero) for x in r["obs"]])))
     cl.append(("reset-mask-all-open", r["mask"] == [True] * len(ex_ref)))
+    # an episode can be over before the first step: zero budget, nothing explorable, or a hidden game whose bounds are already degenerate
+    if params["budget"] == "none":
+        cl.append(("reset-done-iff-nothing-to-do", r["done"] == (not ex_ref or r["fresh_widths_all_zero"]), "C09/done-after-reset"))
+    else:
+        cl.append(("reset-done-iff-budget-zero-or-nothing-to-do",
+                   lg.Iff(r["done"], lg.Or(lg.ge(lg.const(0), inp.real("B")), not ex_ref, r["fresh_widths_all_zero"])), "C09/done-after-reset"))
     if "episode2" not in out:
         return cl
     e2 = out["episode2"]
